@@ -137,4 +137,130 @@ theorem run_quad (chk : Bool) {q : Nat × Nat × Nat × Nat} (hq : quadOk q = tr
   · congr 1; omega
   · omega
 
+/-! ## the `words[]` array: slots below `i` written, the rest never written -/
+
+def blank (n : Nat) : List (Option Nat) := List.replicate n none
+
+structure Shape (st : PSt) (vals : List Nat) : Prop where
+  words : st.words = vals.map some ++ blank (8 - vals.length)
+  i : st.i = vals.length
+  le : vals.length ≤ 8
+
+theorem shape_init : Shape initSt [] := ⟨rfl, rfl, by decide⟩
+
+theorem set_written (vals : List Nat) (v : Nat) (x : Option Nat) (junk : List (Option Nat)) :
+    (vals.map some ++ x :: junk).set vals.length (some v) = (vals ++ [v]).map some ++ junk := by
+  induction vals with
+  | nil => rfl
+  | cons a as ih => simp only [List.map_cons, List.cons_append, List.length_cons, List.set_cons_succ, ih]
+
+theorem shape_push {st : PSt} {vals : List Nat} (h : Shape st vals) (hlt : vals.length < 8) (v : Nat) :
+    Shape (push st v) (vals ++ [v]) := by
+  refine ⟨?_, ?_, ?_⟩
+  · have e : 8 - vals.length = (8 - (vals ++ [v]).length) + 1 := by simp; omega
+    simp only [push, h.words, h.i, e, blank, List.replicate_succ]
+    exact set_written vals v none _
+  · simp [push, h.i]
+  · simp; omega
+
+theorem push_hfil (st : PSt) (v : Nat) : (push st v).hfil = st.hfil := rfl
+theorem push_i (st : PSt) (v : Nat) : (push st v).i = st.i + 1 := rfl
+
+def pushAll (st : PSt) (vs : List Nat) : PSt := vs.foldl push st
+
+theorem pushAll_hfil (vs : List Nat) : ∀ st : PSt, (pushAll st vs).hfil = st.hfil := by
+  induction vs with
+  | nil => intro st; rfl
+  | cons v vs ih => intro st; simp only [pushAll, List.foldl_cons] at ih ⊢; rw [ih, push_hfil]
+
+theorem pushAll_i (vs : List Nat) : ∀ st : PSt, (pushAll st vs).i = st.i + vs.length := by
+  induction vs with
+  | nil => intro st; rfl
+  | cons v vs ih => intro st; simp only [pushAll, List.foldl_cons, List.length_cons] at ih ⊢; rw [ih, push_i]; omega
+
+theorem shape_pushAll (vs : List Nat) : ∀ {st : PSt} {vals : List Nat}, Shape st vals → vals.length + vs.length ≤ 8 →
+    Shape (pushAll st vs) (vals ++ vs) := by
+  induction vs with
+  | nil => intro st vals h _; simpa [pushAll] using h
+  | cons v vs ih =>
+    intro st vals h hl
+    simp only [List.length_cons] at hl
+    have := ih (shape_push h (by omega) v) (by simp; omega)
+    simpa [pushAll] using this
+
+/-! ## runs of groups -/
+
+/-- every group followed by a colon -/
+def colonTerm (gs : List Str) : Str := gs.flatMap (· ++ [':'])
+
+theorem colonTerm_cons (g : Str) (gs : List Str) (t : Str) :
+    colonTerm (g :: gs) ++ t = g ++ ':' :: (colonTerm gs ++ t) := by
+  simp [colonTerm]
+
+theorem joinC_snoc (gs : List Str) (t : Str) : joinC (gs ++ [t]) = colonTerm gs ++ t := by
+  induction gs with
+  | nil => simp [joinC, colonTerm]
+  | cons g gs ih =>
+    rw [colonTerm_cons, ← ih]
+    cases gs with
+    | nil => simp [joinC]
+    | cons h r => simp [joinC]
+
+theorem run_groups (chk : Bool) (gs : List Str) : ∀ (t : Str) (st : PSt), (∀ g ∈ gs, groupOk g = true) → t ≠ [] →
+    st.i + gs.length ≤ 8 → run chk (colonTerm gs ++ t) st = run chk t (pushAll st (gs.map groupVal)) := by
+  induction gs with
+  | nil => intro t st _ _ _; simp [colonTerm, pushAll]
+  | cons g gs ih =>
+    intro t st hg ht hl
+    simp only [List.length_cons] at hl
+    rw [colonTerm_cons, run_group_colon chk (hg g (by simp)) (by simp [ht]) (by omega)]
+    rw [ih t _ (fun g' h' => hg g' (by simp [h'])) ht (by rw [push_i]; omega)]
+    simp [pushAll]
+
+/-! ## after the loop -/
+
+theorem readAll_written (vals : List Nat) : readAll (vals.map some) = some vals := by
+  induction vals with
+  | nil => rfl
+  | cons a as ih => simp [readAll, ih]
+
+/-- no `::`: accepted exactly when eight words were written (repaired code) -/
+theorem finish_nogap (chk : Bool) {st : PSt} {vals : List Nat} (h : Shape st vals) (hh : st.hfil = none)
+    (h8 : vals.length = 8) : finish chk st = .ok vals := by
+  have hw : st.words = vals.map some := by rw [h.words, h8]; simp [blank]
+  have hi : st.i = 8 := by rw [h.i, h8]
+  simp [finish, hh, hi, out, hw, readAll_written]
+
+theorem finish_nogap_short {st : PSt} (hh : st.hfil = none) (h8 : st.i ≠ 8) : finish true st = .reject := by
+  simp [finish, hh, h8]
+
+/-- `::` expansion: the words before the gap stay, the gap is filled with zeros, the words after it
+    are moved to the end -/
+theorem finish_gap_aux (chk : Bool) (pre post : List Nat) (h : pre.length + post.length ≤ 8) :
+    finish chk ⟨pre.length + post.length, some pre.length,
+        (pre ++ post).map some ++ blank (8 - (pre ++ post).length)⟩ =
+      .ok (pre ++ List.replicate (8 - (pre.length + post.length)) 0 ++ post) := by
+  rcases pre with _ | ⟨a0, _ | ⟨a1, _ | ⟨a2, _ | ⟨a3, _ | ⟨a4, _ | ⟨a5, _ | ⟨a6, _ | ⟨a7, _ | ⟨a8, pre⟩⟩⟩⟩⟩⟩⟩⟩⟩ <;>
+  rcases post with _ | ⟨b0, _ | ⟨b1, _ | ⟨b2, _ | ⟨b3, _ | ⟨b4, _ | ⟨b5, _ | ⟨b6, _ | ⟨b7, _ | ⟨b8, post⟩⟩⟩⟩⟩⟩⟩⟩⟩ <;>
+  first
+    | rfl
+    | (exfalso; simp only [List.length_cons, List.length_nil] at h; omega)
+
+theorem finish_gap (chk : Bool) {st : PSt} (pre post : List Nat) (h : Shape st (pre ++ post))
+    (hh : st.hfil = some pre.length) :
+    finish chk st = .ok (pre ++ List.replicate (8 - (pre.length + post.length)) 0 ++ post) := by
+  have hl := h.le
+  simp only [List.length_append] at hl
+  have := finish_gap_aux chk pre post hl
+  rw [← this]
+  congr 1
+  obtain ⟨i, hf, w⟩ := st
+  simp only at hh
+  have h1 := h.i
+  have h2 := h.words
+  simp only [List.length_append] at h1
+  simp only at h1 h2
+  subst h1 hh h2
+  rfl
+
 end Rtr.IpText
